@@ -49,6 +49,17 @@ class ModelDB:
         self.seq = 0
         self.ilis = {}         # id -> [status, definition]
         self._tables = None
+        # removed extensions whose base stayed installed: only used by the 'tags-unowned' quirk (their
+        # tags/pronunciations on base forms have no owner and survive the removal - known finding)
+        self.ghosts = []
+
+    def order(self, owner):
+        if owner in self.lex:
+            return self.lex[owner].order
+        for g in self.ghosts:
+            if '~' + g.spec + '#%d' % g.order == owner:
+                return g.order
+        return 0
 
     # ------------------------------------------------------------------ updates
     def add_resource(self, resource):
@@ -94,8 +105,11 @@ class ModelDB:
     def remove(self, spec):
         """Remove one lexicon and (transitively) its extensions."""
         gone = [spec] + self.extensions_of(spec)
+        self.ghosts = [g for g in self.ghosts if g.base not in gone]
         for s in gone:
-            self.lex.pop(s, None)
+            inst = self.lex.pop(s, None)
+            if inst is not None and inst.base is not None and inst.base not in gone:
+                self.ghosts.append(inst)
         self._tables = None
         return gone
 
@@ -235,6 +249,25 @@ class Tables:
                         for sid in (fr.get('senses') or allsenses):
                             self.frames.append(dict(owner=L, frame=fr['subcategorizationFrame'],
                                                     sense=k(inst.home(sid), sid)))
+        # contributions of removed extensions to forms of a base that stayed (quirk only)
+        for g in db.ghosts:
+            label = '~' + g.spec + '#%d' % g.order
+            for e in g.doc.get('entries', []):
+                if not e.get('external'):
+                    continue
+                tgt = self.entries.get(k(g.base, e['id']))
+                if tgt is None or tgt['order'] > g.order:
+                    continue
+                lem = e.get('lemma')
+                if lem:
+                    tgt['forms'][0]['tags'] += [(label, t['text'], t['category']) for t in lem.get('tags', [])]
+                    tgt['forms'][0]['prons'] += [(label, _pron(p)) for p in lem.get('pronunciations', [])]
+                for f in e.get('forms', []):
+                    if f.get('external'):
+                        for bf in tgt['forms']:
+                            if bf['id'] == f['id'] and bf['owner'] == g.base:
+                                bf['tags'] += [(label, t['text'], t['category']) for t in f.get('tags', [])]
+                                bf['prons'] += [(label, _pron(p)) for p in f.get('pronunciations', [])]
         # indexes
         self.senses_by_entry = {}
         self.senses_by_synset = {}
@@ -280,7 +313,7 @@ class View:
         for owner, val in items:
             if owner in scope:
                 per.setdefault(owner, []).append(val)
-        lists = [per[o] for o in sorted(per, key=lambda s: self.db.lex[s].order)]
+        lists = [per[o] for o in sorted(per, key=self.db.order)]
         if len(lists) == 1:
             return lists[0]
         if not lists:
@@ -306,7 +339,7 @@ class View:
 
     def form(self, f, scope):
         if 'tags-unowned' in self.quirks:
-            scope = set(self.db.lex)
+            scope = set(self.db.lex) | {o for o, *_ in f['tags']} | {o for o, _ in f['prons']}
         return {'form': f['form'], 'id': f['id'], 'script': f['script'],
                 'tags': self._by_owner([(o, [t, c]) for o, t, c in f['tags']], scope),
                 'prons': self._by_owner(f['prons'], scope)}
